@@ -419,4 +419,252 @@ Proof.
     { rewrite Hhe, Hhe2. unfold efffd. rewrite orb_assoc. reflexivity. }
     intros Hf. rewrite (Hcl Hf). reflexivity.
 Qed.
+
+(* ---- one non-empty input label ---- *)
+Definition es_shape (label : list N) (es : list aal) (he' : bool) : Prop :=
+  (es = [MixedCaseAscii label] /\ he' = false) \/ es = [MixedCasePunycode label] \/ exists k, es = AalOther :: repeat AalOther k.
+Definition LN (label db : list N) (he : bool) (ap : list aal) (r : step (list N * bool * list aal)) : Prop :=
+  match r with
+  | SOk (db', he', ap') => exists labs es, length es = length labs /\ labs <> [] /\ db' = db ++ join_dots labs /\
+       ap' = ap ++ es /\ Forall nodot labs /\ he' = he || efffd labs /\ es_shape label es he'
+  | SExit => False
+  | SPanic _ => True
+  end.
+
+Lemma apply_upper_nodot deny b : b <> DOT -> apply_upper deny b <> DOT.
+Proof.
+  intros Hb. unfold apply_upper. destruct (N.land deny (N.shiftl 1 b) =? 0); [exact Hb|].
+  destruct (in_inclusive_range8 b 65 90) eqn:E; [|exact FFFD_not_dot].
+  intros Hq. unfold DOT in *. assert (b = 14) by lia. subst b. vm_compute in E. discriminate.
+Qed.
+Lemma map_upper_nodot deny l : nodot l -> nodot (map (apply_upper deny) l).
+Proof.
+  intros H. apply Forall_forall. intros x Hx. apply in_map_iff in Hx. destruct Hx as (b & <- & Hb).
+  unfold nodot in H. rewrite Forall_forall in H. apply apply_upper_nodot. exact (H b Hb).
+Qed.
+Lemma split1_nodot l : forall h t, split1 DOT l = (h, t) -> nodot h /\ Forall nodot t.
+Proof.
+  induction l as [|x r IH]; intros h t H; cbn [split1] in H.
+  - inversion H. split; constructor.
+  - destruct (split1 DOT r) as [h0 t0]. destruct (IH _ _ eq_refl) as [I1 I2]. destruct (x =? DOT) eqn:E; inversion H; subst.
+    + split; [constructor|constructor; assumption].
+    + split; [constructor; [apply N.eqb_neq; exact E|exact I1]|exact I2].
+Qed.
+Lemma split_on_nodot l : Forall nodot (split_on DOT l).
+Proof. unfold split_on. destruct (split1 DOT l) as [h t] eqn:E. destruct (split1_nodot _ _ _ E). constructor; assumption. Qed.
+
+Lemma complexT_LN hy deny label db he ap ascii : nodot ascii ->
+  LN label db he ap (complexT false hy deny label db he ap ascii).
+Proof.
+  intros Hn. unfold complexT. rewrite scan_mark_fffd_id. cbn [sbind].
+  set (cur := map (apply_upper deny) ascii). fold (fffd cur).
+  pose proof (map_upper_nodot deny ascii Hn) as Hnc. fold cur in Hnc.
+  match goal with |- LN _ _ _ _ (sbind ?r _) =>
+    assert (HH : MK cur (he || fffd cur) r) by (destruct (negb (hy_is_allow hy)); [apply check_hyphens_MK|apply MK_ret]);
+    destruct r as [[cur0 he0]| |p]; cbn [MK sbind LN] in *; [|contradiction|exact I] end.
+  exists [cur0], [if he0 then AalOther else MixedCaseAscii label]. cbn [length join_dots efffd existsb].
+  assert (Hhe : he0 = he || fffd cur0).
+  { rewrite (T_exact _ _ _ _ HH) by (intros Hf; rewrite Hf; apply orb_true_r).
+    destruct (fffd cur) eqn:Ef; [rewrite (marked_fffd _ _ Ef (proj1 HH)), !orb_true_r; reflexivity|rewrite orb_false_r; reflexivity]. }
+  repeat split; try reflexivity; try discriminate.
+  - constructor; [exact (marked_nodot _ _ Hnc (proj1 HH))|constructor].
+  - rewrite orb_false_r. exact Hhe.
+  - destruct he0; [right; right; exists 0%nat; reflexivity|left; split; reflexivity].
+Qed.
+
+Lemma complexF_LN hy deny label db he ap ascii non_ascii : nodot ascii ->
+  LN label db he ap (complexF A cfg false hy deny db he ap ascii non_ascii).
+Proof.
+  intros Hn. unfold complexF. rewrite scan_mark_fffd_id. cbn [sbind].
+  set (cur := map (apply_upper deny) ascii). fold (fffd cur).
+  pose proof (map_upper_nodot deny ascii Hn) as Hnc. fold cur in Hnc.
+  destruct (split1 DOT (map (apply_lower deny) (map_normalize A (utf8_lossy non_ascii)))) as [s rest] eqn:Es.
+  destruct (split1_nodot _ _ _ Es) as [Hs Hr].
+  pose proof (sublabels_SP hy deny rest s db cur (he || fffd cur) (ap ++ [AalOther])
+                match ascii with [] => true | _ :: _ => false end match non_ascii with [] => false | _ :: _ => true end
+                Hnc Hs Hr ltac:(intros Hf; rewrite Hf; apply orb_true_r)) as HS.
+  destruct (sublabels A cfg false hy (N.lor deny DOT_MASK) s rest db cur (he || fffd cur) (ap ++ [AalOther]) _ _)
+    as [[[db' he'] ap']| |p]; cbn [SP LN] in *; [|contradiction|exact I].
+  destruct HS as (labs & Hlen & Hdb & Hap & Hnl & Hhe & Hc).
+  exists labs, (AalOther :: repeat AalOther (length rest)). cbn [length]. rewrite repeat_length.
+  split; [symmetry; exact Hlen|]. split; [destruct labs; [discriminate|discriminate]|]. split; [exact Hdb|].
+  split; [rewrite Hap, <- app_assoc; reflexivity|]. split; [exact Hnl|]. split.
+  - rewrite Hhe. destruct (fffd cur) eqn:Ef; [rewrite (Hc eq_refl), !orb_true_r; reflexivity|rewrite orb_false_r; reflexivity].
+  - right; right. exists (length rest). reflexivity.
+Qed.
+
+Lemma label_nonempty_LN hy deny label db he ap : nodot label ->
+  LN label db he ap (label_nonempty A cfg false hy deny label db he ap).
+Proof.
+  intros Hn. rewrite label_nonempty_eq. destruct (split_ascii_fast_path_prefix label) as [ascii non_ascii] eqn:Es.
+  assert (Hna : nodot ascii).
+  { rewrite (split_ascii_app _ _ _ Es) in Hn. exact (proj1 (proj1 (nodot_app _ _) Hn)). }
+  destruct non_ascii as [|na nr]; [|apply complexF_LN; exact Hna].
+  destruct (has_punycode_prefix ascii); [|apply complexT_LN; exact Hna].
+  destruct (negb match last_opt ascii with Some l => l =? HYPHEN | None => false end
+            && (len ascii - 4 <=? PUNYCODE_DECODE_MAX_INPUT_LENGTH)); [|apply complexF_LN; exact Hna].
+  destruct (decode_with cfg U8Internal (skipn 4 ascii)) as [decoded| |p]; [| |exact I].
+  - pose proof (apd_mark deny decoded he) as HA.
+    destruct (after_punycode_decode A false (N.lor deny DOT_MASK) decoded he) as [[c1 he1]| |p]; cbn [APD sbind] in *; [|contradiction|exact I].
+    destruct HA as [Hn1 He1].
+    pose proof (check_label_MK hy c1 he1 true true) as HC.
+    destruct (check_label A cfg false hy c1 he1 true true) as [[c2 he2']| |p]; cbn [MK sbind LN] in *; [|contradiction|exact I].
+    exists [c2], [MixedCasePunycode label]. cbn [length join_dots efffd existsb]. rewrite orb_false_r.
+    repeat split; try reflexivity; try discriminate.
+    + constructor; [exact (marked_nodot _ _ Hn1 (proj1 HC))|constructor].
+    + destruct HC as [_ [[-> ->]|[-> F]]]; [exact He1|rewrite F, orb_true_r; reflexivity].
+    + right; left; reflexivity.
+  - cbn [LN]. exists [FFFD :: map (apply_upper deny) (tl ascii)], [MixedCasePunycode label].
+    cbn [length join_dots efffd existsb fffd]. rewrite is_fffd_FFFD. cbn [orb]. rewrite orb_true_r.
+    repeat split; try reflexivity; try discriminate.
+    + constructor; [|constructor]. constructor; [exact FFFD_not_dot|]. apply map_upper_nodot.
+      destruct ascii; [constructor|]. inversion Hna; assumption.
+    + right; left; reflexivity.
+Qed.
 End WithAdapter.
+
+(* ---- which input labels the entries of already_punycode stand for ---- *)
+Inductive cover : list aal -> list (list N) -> Prop :=
+| cv_nil : cover [] []
+| cv_a l ap ls : cover ap ls -> cover (MixedCaseAscii l :: ap) (l :: ls)
+| cv_p l ap ls : l <> [] -> cover ap ls -> cover (MixedCasePunycode l :: ap) (l :: ls)
+| cv_o k l ap ls : l <> [] -> cover ap ls -> cover (AalOther :: repeat AalOther k ++ ap) (l :: ls).
+
+Lemma cover_app ap ls : cover ap ls -> forall es ms, cover es ms -> cover (ap ++ es) (ls ++ ms).
+Proof.
+  induction 1 as [|l ap ls _ IH|l ap ls Hl _ IH|k l ap ls Hl _ IH]; intros es ms Hc; cbn [app].
+  - exact Hc.
+  - constructor. apply IH. exact Hc.
+  - constructor; [exact Hl|]. apply IH. exact Hc.
+  - rewrite <- app_assoc. constructor; [exact Hl|]. apply IH. exact Hc.
+Qed.
+Lemma cover_nil_r ap : cover ap [] -> ap = [].
+Proof. intros H. inversion H. reflexivity. Qed.
+
+Definition pre_ok (dbl : list (list N)) (ap : list aal) : Prop :=
+  Forall2 (fun lab e => match e with MixedCaseAscii _ => fffd lab = false | _ => True end) dbl ap.
+Lemma pre_ok_others labs : forall k, length (repeat AalOther k) = length labs -> pre_ok labs (repeat AalOther k).
+Proof.
+  induction labs as [|l r IH]; intros k H; destruct k; cbn [repeat length] in *; try discriminate; constructor; [exact I|].
+  apply IH. lia.
+Qed.
+Lemma LN_facts label labs es he he' : es_shape label es he' -> length es = length labs -> he' = he || efffd labs ->
+  pre_ok labs es /\ (label <> [] -> cover es [label]).
+Proof.
+  intros [[-> ->]|[->|(k & ->)]] Hl Hh.
+  - destruct labs as [|lab [|x r]]; try discriminate. cbn [efffd existsb] in Hh. split.
+    + constructor; [|constructor]. destruct (fffd lab); [rewrite orb_true_r in Hh; discriminate|reflexivity].
+    + intros _. constructor. constructor.
+  - destruct labs as [|lab [|x r]]; try discriminate. split.
+    + constructor; [exact I|constructor].
+    + intros Hn. constructor; [exact Hn|constructor].
+  - split.
+    + apply (pre_ok_others labs (Datatypes.S k)). exact Hl.
+    + intros Hn. replace (AalOther :: repeat AalOther k) with (AalOther :: repeat AalOther k ++ []) by (rewrite app_nil_r; reflexivity).
+      constructor; [exact Hn|constructor].
+Qed.
+
+Lemma join_dots_app dbl labs : dbl <> [] -> labs <> [] -> join_dots (dbl ++ labs) = join_dots dbl ++ DOT :: join_dots labs.
+Proof.
+  intros Hd Hl. induction dbl as [|x r IH]; [congruence|]. destruct r as [|y r'].
+  - cbn [app]. destruct labs; [congruence|]. reflexivity.
+  - change ((x :: y :: r') ++ labs) with (x :: (y :: r') ++ labs). cbn [app]. rewrite !join_dots_cons2.
+    change (y :: r' ++ labs) with ((y :: r') ++ labs). rewrite IH by discriminate. rewrite <- app_assoc. reflexivity.
+Qed.
+Lemma efffd_app a b : efffd (a ++ b) = efffd a || efffd b.
+Proof. unfold efffd. apply existsb_app. Qed.
+Lemma fffd_join ls : fffd (join_dots ls) = efffd ls.
+Proof.
+  induction ls as [|l r IH]; [reflexivity|]. destruct r as [|x r'].
+  - cbn [join_dots efffd existsb]. rewrite orb_false_r. reflexivity.
+  - rewrite join_dots_cons2. rewrite fffd_app. unfold fffd at 2. cbn [existsb]. change (is_fffd DOT) with false. cbn [orb].
+    fold (fffd (join_dots (x :: r'))). rewrite IH. reflexivity.
+Qed.
+
+(* ---- the label loop: state invariant of the marking run ---- *)
+Section Loop.
+Variable A : adapter.
+Variable cfg : bool.
+Variable d : list N.
+
+Definition SInv (s : ist) (todo : list (list N)) : Prop :=
+  exists P, len P = i_ptu s /\
+  if i_inpre s then i_db s = [] /\ i_ap s = [] /\ i_he s = false /\ d = P ++ tailtext (i_seen s) todo
+  else i_seen s = true /\ i_ptu s < len d /\ exists dbl done, dbl <> [] /\ i_db s = join_dots dbl /\ Forall nodot dbl /\
+       pre_ok dbl (i_ap s) /\ i_he s = efffd dbl /\ d = P ++ join_dots (done ++ todo) /\ cover (i_ap s) done.
+
+Definition SPost (todo : list (list N)) (r : step ist) : Prop :=
+  match r with SOk s' => SInv s' todo | SExit => False | SPanic _ => True end.
+
+Lemma label_step_SInv hy deny label s todo : nodot label -> SInv s (label :: todo) ->
+  SPost todo (label_step A cfg false hy deny label s).
+Proof.
+  intros Hn (P & HP & H). unfold label_step.
+  destruct (i_inpre s && is_passthrough_ascii_label label) eqn:Ec.
+  - apply andb_true_iff in Ec. destruct Ec as [Epre _]. rewrite Epre in H. destruct H as (Hdb & Hap & Hhe & Hd).
+    cbn [SPost]. unfold SInv. cbn [i_db i_ap i_ptu i_inpre i_seen i_he].
+    exists (P ++ (if i_seen s then [DOT] else []) ++ label). split.
+    + rewrite !len_app, HP. destruct (i_seen s); unfold len; cbn [length]; lia.
+    + repeat split; try assumption. rewrite tailtext_cons in Hd. rewrite <- !app_assoc. exact Hd.
+  - destruct (i_inpre s) eqn:Epre.
+    + (* the first label that is not passed through *)
+      cbn [andb] in Ec. destruct H as (Hdb & Hap & Hhe & Hd). rewrite andb_true_r, andb_false_r.
+      destruct label as [|b r]; [discriminate|].
+      rewrite tailtext_cons in Hd.
+      set (P' := P ++ (if i_seen s then [DOT] else [])).
+      assert (HP' : len P' = (if i_seen s then i_ptu s + 1 else i_ptu s)).
+      { unfold P'. rewrite len_app, HP. destruct (i_seen s); unfold len; cbn [length]; lia. }
+      assert (Hd' : d = P' ++ (b :: r) ++ tailtext true todo).
+      { unfold P'. rewrite <- app_assoc. exact Hd. }
+      pose proof (label_nonempty_LN A cfg hy deny (b :: r) (i_db s) (i_he s) (i_ap s) Hn) as HL.
+      destruct (label_nonempty A cfg false hy deny (b :: r) (i_db s) (i_he s) (i_ap s)) as [[[db1 he1] ap1]| |p];
+        cbn [LN sbind SPost] in *; [|contradiction|exact I].
+      destruct HL as (labs & es & Hlen & Hne & Hdb1 & Hap1 & Hnl & Hhe1 & Hsh).
+      destruct (LN_facts _ _ _ _ _ Hsh Hlen Hhe1) as [Hpo Hcv].
+      unfold SInv. cbn [i_db i_ap i_ptu i_inpre i_seen i_he]. exists P'. split; [exact HP'|].
+      split; [reflexivity|]. split.
+      { rewrite Hd'. rewrite !len_app. rewrite HP'. assert (Hbr : len (b :: r) = len r + 1) by (unfold len; cbn [length]; lia).
+        rewrite Hbr. destruct (i_seen s); lia. }
+      exists labs, [b :: r]. rewrite Hdb in Hdb1. rewrite Hap in Hap1. rewrite Hhe in Hhe1. cbn [app orb] in *.
+      repeat split; try assumption.
+      * rewrite Hap1. exact Hpo.
+      * rewrite join_dots_cons. exact Hd'.
+      * rewrite Hap1. apply Hcv. discriminate.
+    + (* inside the processed part *)
+      destruct H as (Hseen & Hlt & dbl & done & Hdn & Hdb & Hnd & Hpo & Hhe & Hd & Hcv).
+      rewrite Hseen. cbn [andb negb].
+      destruct label as [|b r].
+      * cbn [SPost]. unfold SInv. cbn [i_db i_ap i_ptu i_inpre i_seen i_he]. exists P. split; [exact HP|].
+        split; [reflexivity|]. split; [exact Hlt|]. exists (dbl ++ [[]]), (done ++ [[]]).
+        split; [destruct dbl; discriminate|]. split.
+        { rewrite join_dots_app by (try assumption; discriminate). rewrite Hdb. reflexivity. }
+        split; [apply Forall_app; split; [exact Hnd|constructor; [constructor|constructor]]|]. split.
+        { apply Forall2_app; [exact Hpo|]. constructor; [reflexivity|constructor]. }
+        split; [rewrite efffd_app, Hhe; cbn [efffd existsb fffd]; rewrite !orb_false_r; reflexivity|]. split.
+        { rewrite <- app_assoc. exact Hd. }
+        apply cover_app; [exact Hcv|]. constructor. constructor.
+      * pose proof (label_nonempty_LN A cfg hy deny (b :: r) (i_db s ++ [DOT]) (i_he s) (i_ap s) Hn) as HL.
+        destruct (label_nonempty A cfg false hy deny (b :: r) (i_db s ++ [DOT]) (i_he s) (i_ap s)) as [[[db1 he1] ap1]| |p];
+          cbn [LN sbind SPost] in *; [|contradiction|exact I].
+        destruct HL as (labs & es & Hlen & Hne & Hdb1 & Hap1 & Hnl & Hhe1 & Hsh).
+        destruct (LN_facts _ _ _ _ _ Hsh Hlen Hhe1) as [Hpo1 Hcv1].
+        unfold SInv. cbn [i_db i_ap i_ptu i_inpre i_seen i_he]. exists P. split; [exact HP|].
+        split; [reflexivity|]. split; [exact Hlt|]. exists (dbl ++ labs), (done ++ [b :: r]).
+        split; [destruct dbl; [congruence|discriminate]|]. split.
+        { rewrite join_dots_app by assumption. rewrite Hdb1, Hdb, <- app_assoc. reflexivity. }
+        split; [apply Forall_app; split; assumption|]. split.
+        { rewrite Hap1. apply Forall2_app; assumption. }
+        split; [rewrite efffd_app, <- Hhe; exact Hhe1|]. split.
+        { rewrite <- app_assoc. exact Hd. }
+        rewrite Hap1. apply cover_app; [exact Hcv|]. apply Hcv1. discriminate.
+Qed.
+
+Lemma labels_loop_SInv hy deny labels : Forall nodot labels -> forall s, SInv s labels ->
+  SPost [] (labels_loop A cfg false hy deny labels s).
+Proof.
+  induction labels as [|l r IH]; intros Hn s HS; cbn [labels_loop]; [exact HS|].
+  pose proof (label_step_SInv hy deny l s r (Forall_inv Hn) HS) as H1.
+  destruct (label_step A cfg false hy deny l s) as [s1| |p]; cbn [SPost sbind] in *; [|contradiction|exact I].
+  exact (IH (Forall_inv_tail Hn) s1 H1).
+Qed.
+End Loop.
